@@ -26,7 +26,18 @@ THEMES.update({
  "H": "boundaries of collections and batches: the first or last element, the empty and the one-element collection, exact multiples of a batch or page "
       "size, the element that straddles a batch boundary, off-by-one in a slice expression — it must only show at such a boundary.",
 })
-order = {"w8": "BCDA", "w9": "FGHE"}.get(wave, "ABCD")
+THEMES.update({
+ "I": "a performance optimisation gone wrong: a cache or memo, batching, a reused buffer, a fast path for the common case, an early exit, lazy "
+      "initialisation, fewer round trips or system calls — correct for the common case, wrong for a specific legal one.",
+ "J": "a defensive or hardening change gone wrong: extra validation that rejects or alters legal input, a clamp or limit, a new timeout or retry "
+      "bound, a nil/empty check that silently skips work, an error that is now swallowed or turned into a default.",
+ "K": "an API migration: a library call replaced by an 'equivalent' one with subtly different semantics (ReadBytes->ReadSlice, Split->Fields, "
+      "Atoi->ParseInt with another base or size, io.ReadFull->Read, bytes.Buffer->strings.Builder misuse, sort stability, map->slice order, "
+      "time.After->Ticker, Sprintf verbs, TrimRight vs TrimSuffix, HasPrefix vs Contains).",
+ "L": "a small feature or observability addition that perturbs behaviour: a new counter, log line, metric, progress report or configuration option "
+      "whose evaluation has a side effect (consumes from a reader or channel, advances an iterator, takes a lock, changes a default).",
+})
+order = {"w8": "BCDA", "w9": "FGHE", "w10": "IJKL"}.get(wave, "ABCD")
 props = [json.loads(l) for l in open("/verif/properties.jsonl")]
 planted = {}
 for m in sorted(glob.glob("/verif/seeded/*/meta.json")):
@@ -41,6 +52,8 @@ os.makedirs("/tmp/seed", exist_ok=True)
 for i, p in enumerate(props):
     pid = p["id"]
     name = "%sc%s" % (wave, pid[1:])
+    if wave == "w10":
+        name = "wac%s" % pid[1:]
     T = "/tmp/seed/" + name
     theme = THEMES[order[i % 4]]
     mech = "; ".join("%s (%s)" % (m["name"], m["where"]) for m in p["anchors"].get("mechanism", []))
